@@ -9,7 +9,7 @@ match rt_makedirs rt path mode w with
 | (w, OOk _) =>
 (w, OOk tt)
 | (w, OErr e_1) => (
-if (e_1 =? errno_EEXIST) then (
+if ((os_errno e_1) =? errno_EEXIST) then (
 if (negb (rt_isdir rt path w)) then (
 (w, OErr e_1)
 ) else (
@@ -26,7 +26,7 @@ match remove path w with
 | (w, OOk _) =>
 (w, OOk tt)
 | (w, OErr e_1) => (
-if (negb (e_1 =? errno_ENOENT)) then (
+if (negb ((os_errno e_1) =? errno_ENOENT)) then (
 (w, OErr e_1)
 ) else (
 (w, OOk tt)
@@ -197,7 +197,7 @@ OOk (v_6, unread_bytes)
 | (fp, OExn x_8) => OExn x_8
 end
 | (fp, OErr e_4) => (
-if (e_4 =? errno_EINVAL) then (
+if ((os_errno e_4) =? errno_EINVAL) then (
 match fseek fp (0) os_SEEK_SET with
 | (fp, OOk _) =>
 let unread_bytes := (ftell fp) in
